@@ -208,6 +208,17 @@ def eval_case(case):
         want = ins.lstrip('T') if ins.lstrip('T') else ins[-1:]
         if snap[0]['seq'] != want and len(ins) > 0:
             out.bad('DamAndT:RNA-branch:insert', 'emitted R1 %r..., expected the insert from position 14 without its leading T run %r...' % (snap[0]['seq'][:20], want[:20]))
+    # ---------------- (1c) scattered DamID layouts (UMI, CB, UMI, CB, then the insert), DamID branch: the emitted stretch of
+    # mate 1 starts right behind the last barcode base and its first two bases are the ligation tag lh / lq
+    if name in ('DamID2_3u4b3u6b', 'DamID2andT_3u4b3u4b', 'DamID2andT_3u4b3u6b') and (snap[0]['tags'].get('dt') == 'DamID' or name == 'DamID2_3u4b3u6b') \
+            and not out.violations and meta['bc_positions']:
+        last_bc = max(p_ for m_, p_ in meta['bc_positions'] if m_ == 0)
+        if offsets[0] is not None and len(snap[0]['seq']) > 0 and offsets[0] != last_bc + 1 and \
+                records[0].sequence[last_bc + 1:last_bc + 1 + len(snap[0]['seq'])] != snap[0]['seq']:
+            out.bad('%s:scattered:insert-start' % name, 'emitted mate 1 starts at %r, the last barcode base is at %d' % (offsets[0], last_bc))
+        if 'lh' in snap[0]['tags'] and len(snap[0]['seq']) >= 2:
+            if snap[0]['tags']['lh'] != snap[0]['seq'][:2] or snap[0]['tags'].get('lq') != ds.phred_to_safe(snap[0]['qual'][:2]):
+                out.bad('%s:scattered:ligation-tag' % name, 'lh %r lq %r, first emitted bases %r' % (snap[0]['tags']['lh'], snap[0]['tags'].get('lq'), snap[0]['seq'][:2]))
     # ---------------- (1) layout table
     if lay and not out.violations:
         t0 = snap[0]['tags']
